@@ -5,6 +5,9 @@ VERIF = os.path.dirname(os.path.dirname(os.path.abspath(__file__)))
 
 # id -> (category, technique, text, note, design_ref)
 CHECKS = {
+    'C06': ('exploration', 'trace monitoring of the real driver (mpmon, ASan build): bounds/types of every auxiliary variable and its defining functional constraint as received by the ModelAPI, judged by forward evaluation with independent semantics',
+            'Random models with hostile variable domains (finite, fixed, negative, zero-crossing, half-infinite, free; continuous/integer/binary) and expressions over 40 functional constraint types (affine, quadratic, abs, min, max, powers incl. negative/fractional exponents, a^x, division, if-then-else, counting, logic, exp/log/trigonometric/hyperbolic functions, piecewise-linear) are converted with every type accepted natively; at every sampled domain point each auxiliary value must lie inside the delivered bounds and be integral if declared integer, and each delivered objective must equal the NL objective.',
+            '1e-9 relative slack on bounds (they are computed in double arithmetic); models with constraints are judged at NL-feasible points only; two known findings about the forced positivity of log arguments, attributed by region', '2/C06'),
     'C07': ('exploration', 'monitoring of the real PostsolveSolution -> solution check path inside the real driver (mpmon, ASan build) with scripted candidate points; exact reference evaluation of the NL model',
             'Random models of the exact fragment (all flat types native) get up to 14 candidate points each: feasible, violating constraints, off a bound, fractional integers, on/just beyond an absolute tolerance of 1/4; every point is completed with the true values of all auxiliary variables and objectives and pushed through the real check under sol:chk:mode in {default,3,31,96,99,1023,0}; the check must report iff the exact NL evaluation says violated, and a separate run with sol:chk:fail must end with solve_result 150 iff violated.',
             'points are exact or violate by a clear margin; in the tolerance configuration only lines about original items are judged at within-tolerance points; points on which NL model and delivered model disagree (C01/C06 defects) are skipped and counted; one known finding (recomputed-only modes miss a root logical constraint expressed through a LinearFunctionalConstraint)', '2/C07'),
